@@ -48,7 +48,8 @@ DESIGN_REF = "DESIGN.md section 4, C11"
 RULE = ("cases = range family (row pairs 10x10, column pairs 15x15, target-size and detector-size overruns, readout-range "
         "pairs) + fitness family (function x targets x weights x dims x range kind) + run family (algorithm x seed x "
         "islands x targets); non-trivial = at least one fitness value compared or a rejection decided; distinct = "
-        "distinct (accept/reject decision, expected fitness values) signatures")
+        "distinct outcomes: (reject, reason class, observed decision) for invalid pairs, the vector of expected fitness "
+        "values for accepted configurations, the configuration for runs")
 NSHARDS = 64
 ASSUMPTIONS = [
     "a probe model with closed-form output stands in for a real pipeline",
@@ -180,7 +181,7 @@ def enumerate_cases(tier, seed):
     # result ranges exceeding the detector (target 6x7 large enough)
     for rr in subranges(ROWS + 2):
         if rr[1] > ROWS or thorough:
-            for tr in ((rr[0], rr[1]), (0, rr[1] - rr[0])):
+            for tr in dict.fromkeys([(rr[0], rr[1]), (0, rr[1] - rr[0])]):
                 cases.append({"fam": "range", "sub": "rsize-rows", "res": [*rr, 0, 3], "tgt": [*tr, 0, 3], "tshape": [6, 7]})
     # readout ranges: 3 readouts; target cubes with 3 (quick) and 2, 4 frames (thorough)
     for nframes in (3, 2, 4) if thorough else (3,):
@@ -225,6 +226,24 @@ def enumerate_cases(tier, seed):
         cases.append({"fam": "run", "algo": "sade", "pygmo_seed": 2, "islands": 2, "ntargets": 2, "dims": dims,
                       "func": FUNCS[1], "sub": "shifted", "npar": 2, "r3": "6+4"})
     return cases
+
+
+def expected_size(tier, seed):
+    """closed form of the enumeration above"""
+    def nsub(n):
+        return n * (n + 1) // 2
+
+    thorough = tier == "thorough"
+    rows = nsub(ROWS) ** 2
+    cols = nsub(COLS) ** 2 if thorough else (5 + 3) * (5 + 4)        # result ranges starting at 0/2, target ranges at 0/1
+    tsize = sum(nsub(r + 2) + nsub(c + 2) for r, c in (((3, 4), (6, 7)) if thorough else ((3, 4),)))
+    over = [(a, b) for a, b in subranges(ROWS + 2) if b > ROWS or thorough]
+    rsize = sum(1 if a == 0 else 2 for a, b in over)
+    time = sum((1 + nsub(3) + 2) * (1 + nsub(nf) + 1) for nf in ((3, 2, 4) if thorough else (3,)))
+    fit = len(FUNCS) * 3 * ((3 + 4) + (3 + 4) + (2 + 3))
+    combos = 3 * 2 * 2 * 2 * 2
+    runs = (combos * 2 if thorough else combos // 2 + combos // 4) + 1 + 2
+    return rows + cols + tsize + rsize + time + fit + runs
 
 
 # ---------------------------------------------------------------- construction
@@ -373,7 +392,7 @@ def _run_problem(case, seed, td):
         if exc is not None:
             if calls_at_construction:
                 bad("rejected-late", f"rejected ({type(exc).__name__}) only after {calls_at_construction} model call(s)", why=why)
-            return {"viol": viol, "sig": cfgx.sig(sig_base + [res, tgt, tshape]), "nontrivial": True, "n": 1,
+            return {"viol": viol, "sig": cfgx.sig(sig_base + [exc is not None]), "nontrivial": True, "n": 1,
                     "outcome": {"decision": "reject", "why": why}}
         # accepted although invalid: does it at least fail at the first evaluation?
         late = None
@@ -383,13 +402,13 @@ def _run_problem(case, seed, td):
         except Exception as e2:  # noqa: BLE001
             late = f"the first fitness evaluation then raised {type(e2).__name__}"
         bad("invalid-accepted", f"invalid range pair ({why}) was accepted at construction; {late}", why=why)
-        return {"viol": viol, "sig": cfgx.sig(sig_base + [res, tgt, tshape]), "nontrivial": True, "n": 1,
+        return {"viol": viol, "sig": cfgx.sig(sig_base + [exc is not None]), "nontrivial": True, "n": 1,
                 "outcome": {"decision": "reject", "why": why}}
     # valid configuration
     if exc is not None:
         bad("valid-rejected", f"valid configuration rejected with {type(exc).__name__}: {str(exc)[:200]}",
             dims=3 if times else 2, **valid_why(res, tgt))
-        return {"viol": viol, "sig": cfgx.sig(sig_base + [res, tgt, tshape, "rejected"]), "nontrivial": True, "n": 1,
+        return {"viol": viol, "sig": cfgx.sig(sig_base + ["rejected", valid_why(res, tgt)]), "nontrivial": True, "n": 1,
                 "outcome": {"decision": "accept"}}
     if calls_at_construction:
         pass        # running the model while constructing is not forbidden by the statement
